@@ -303,6 +303,10 @@ HOSTILE_MAPS: list[dict | None] = [
     {"ns2": "urn:h", "ns3": NS_B},
     {"ns3": "urn:h", "ns4": NS_B, "z": "urn:h2"},
     {"ns2": NS_A, "ns3": NS_B},
+    # one namespace bound twice, the default (spelled "" or None) AFTER the prefix
+    {"a": NS_A, "": NS_A},
+    {"b": NS_B, None: NS_B, "a": NS_A},
+    {"a": NS_A, "": NS_A, "b": NS_B, None: NS_B},
 ]
 
 TEXTS = ["", "t", "a b", " lead", "trail ", "<&\"'>", "]]>", "x\ty", "l1\nl2", "\U0001F600", "é", "0", "true"]
